@@ -275,6 +275,23 @@ def strat_cdf3(tier):
     )
 
 
+def strat_cdf3_cheap(tier):
+    """3-D cdf in the quick tier: smooth shape-2..3 Weibull levels (a 3-fold nquad of these takes seconds, the general
+    3-D case minutes); chain [None, 0, 1] and star [None, 0, 0] structures"""
+    def lvl(j):
+        return st.builds(
+            lambda a, b, beta: dict(family="Weibull", conditional_on=j, fixed=dict(beta=beta, gamma=0.0), dependent=dict(alpha=dict(shape="linear2", coef=[a, b]))),
+            st.floats(0.8, 2.0).map(lambda v: round(v, 3)), st.floats(0.2, 0.8).map(lambda v: round(v, 3)), st.sampled_from([2.0, 2.5, 3.0]),
+        )
+
+    return st.builds(
+        lambda a0, b0, l1, chain, l2c, l2s, u: dict(
+            model=[dict(family="Weibull", params=dict(alpha=a0, beta=b0, gamma=0.0)), l1, (l2c if chain else l2s)], u=u, as_list=False),
+        st.floats(1.0, 3.0).map(lambda v: round(v, 3)), st.sampled_from([1.5, 2.0, 3.0]), lvl(0), st.sampled_from([True, True, False]), lvl(1), lvl(0),
+        st.lists(st.floats(0.3, 0.9), min_size=3, max_size=3),
+    )
+
+
 # ---------------------------------------------------------------------------- part marg
 def check_marg(case, ctx):
     spec, dim = case["model"], case["dim"]
@@ -427,6 +444,7 @@ PARTS = [
     Part("norm", check_norm, strat_norm, quick=200, thorough=3000, shrink_quick=False),
     Part("cdf2d", check_cdf, strat_cdf2, quick=32, thorough=960, shrink=False, min_per_shard=1),
     Part("cdf3d", check_cdf, strat_cdf3, quick=0, thorough=16, shrink=False, min_per_shard=1),
+    Part("cdf3d_cheap", check_cdf, strat_cdf3_cheap, quick=16, thorough=64, shrink=False, min_per_shard=1),
     Part("marg3d", check_marg3d, strat_marg3d, quick=16, thorough=320, shrink=False, min_per_shard=1),
     Part("marg", check_marg, strat_marg, quick=32, thorough=1500, shrink=False, min_per_shard=1),
 ]
